@@ -101,6 +101,9 @@ class GrantServer(ns.LogServer):
 
     def check_channel_x11_request(self, channel, single_connection, auth_protocol, auth_cookie, screen_number):
         self._l("check_channel_x11_request")
+        if self.x11_ok == "close":      # the channel goes away while the client waits for the answer
+            channel.close()
+            return False
         return self.x11_ok
 
     def check_port_forward_request(self, address, port):
@@ -236,8 +239,8 @@ class RefusalSession:
                     raise DriverError("server did not see the client's session channel")
             except paramiko.SSHException as e:
                 rec["raised"], rec["extra"] = True, repr(e)
-        elif op == "x11":
-            self.server.x11_ok = bool(flag)
+        elif op in ("x11", "x11closed"):
+            self.server.x11_ok = "close" if op == "x11closed" else bool(flag)
             try:
                 self.ch.request_x11()
             except paramiko.SSHException as e:
@@ -339,7 +342,7 @@ def run_history(steps):
     chan = False          # the history has a live client channel
     try:
         for (op, arg, flag) in steps:
-            if op in ("x11", "agent", "chanreq"):
+            if op in ("x11", "x11closed", "agent", "chanreq"):
                 if not chan:
                     continue
                 if rs.ch is None or rs.ch.closed:
@@ -348,7 +351,7 @@ def run_history(steps):
             out.append(rec)
             if op == "open_session":
                 chan = not rec["raised"]
-            elif op == "x11" and rec["raised"]:
+            elif op in ("x11", "x11closed") and rec["raised"]:
                 chan = False
             if rs.gone:
                 break
@@ -637,10 +640,21 @@ def run_gate(cfg, workdir, rnd, cred="password", universe=None, badsig=False, ea
     client = paramiko.SSHClient()
     os.makedirs(workdir, exist_ok=True)
     sysf, usrf = os.path.join(workdir, "sys_known_hosts"), os.path.join(workdir, "usr_known_hosts")
-    render_known_hosts(cfg["sys"], sysf, rnd)
-    render_known_hosts(cfg["usr"], usrf, rnd)
-    client.load_system_host_keys(sysf)
-    client.load_host_keys(usrf)
+    if cfg.get("loaded", True):
+        render_known_hosts(cfg["sys"], sysf, rnd)
+        render_known_hosts(cfg["usr"], usrf, rnd)
+        client.load_system_host_keys(sysf)
+        client.load_host_keys(usrf)
+    else:
+        # no known_hosts file at all: the application fills the table through get_host_keys().add()
+        if cfg["sys"]:
+            raise DriverError("system host keys can only come from a file")
+        for e in cfg["usr"]:
+            name = concrete_name(e["name"])
+            if e["hashed"]:
+                name = hashed_name(name, bytes(rnd.getrandbits(8) for _ in range(20)))
+            k = hostkey(e["key"]["t"], e["key"]["id"])
+            client.get_host_keys().add(name, k.get_name(), k)
     client.set_missing_host_key_policy(make_policy(cfg["policy"], ctx))
     obs = None
     try:
